@@ -56,6 +56,9 @@ def run(tier: str) -> Check:
         b = br[role]
         ok = bool(b.rec_calls) and all(len(c.args) >= 2 and ({x.id for x in ast.walk(c.args[1]) if isinstance(x, ast.Name)} & b.prec_vars) for c in b.rec_calls)
         ob("P3", f"{role}: the operand is parsed with a bound derived from the declared precedence", f"{role}: the recursive call's minimum precedence does not come from {b.table}", ok)
+    for role, b in br.items():
+        bad = "; ".join(f"{v} = {e}" for v, e in b.impure)
+        ob("P3", f"{role}: the precedence that is compared and passed on is the {b.table} entry itself", f"{role}: the declared precedence is altered before it is used", not b.impure, {"assignments": bad})
     # P4
     b = br["infix"]
     if b.rec_calls and len(b.rec_calls[0].args) >= 2 and b.prec_vars:
